@@ -227,7 +227,7 @@ class _Reader(CSVWorkloadReader):
             yield PipelineArrival(a, p)
 
 
-def trace_protocol(tps, a0, a1, a2, a3, n, R, pa=-1, pr=0, want=""):
+def trace_protocol(tps, a0, a1, a2, a3, n, R, pa=-1, pr=0, dup_ids=False, want=""):
     """n <= 4 pipelines with arrival times a_i/tps seconds... at tick rate tps in {1,2,4} the seconds
     value k/tps is exact, so the expected delivery tick of arrival k/tps is k.  Arrivals are
     non-decreasing (file order); the run lasts R ticks."""
@@ -242,7 +242,9 @@ def trace_protocol(tps, a0, a1, a2, a3, n, R, pa=-1, pr=0, want=""):
         wl0 = _Reader([(0 / tps, other[0]), (pa / tps, other[1])]).get_workload(tps)
         for t in range(pr):
             wl0.run_one_tick()
-    pipes = [Pipeline(f"p{i}", Priority.QUERY) for i in range(n)]
+    # (dup_ids: pipeline ids are labels of the trace, not keys - e.g. two gentrace outputs merged by arrival time reuse p1, p2, ...;
+    #  every pipeline object is still delivered once)
+    pipes = [Pipeline(f"p{i % 2}" if dup_ids else f"p{i}", Priority.QUERY) for i in range(n)]
     arrivals = [(arr_ticks[i] / tps, pipes[i]) for i in range(n)]
     wl = _Reader(arrivals).get_workload(tps)
     delivered = {}
